@@ -402,6 +402,10 @@ class _RpcProxy:
                 # discard the worker rather than reuse it.
                 if hasattr(transport, "_stream_opened"):
                     object.__setattr__(transport, "_stream_opened", True)
+                if hasattr(transport, "_last_stream_session"):
+                    # Until this call has a session of its own, an earlier
+                    # stream's cleanly closed session must not vouch for it.
+                    object.__setattr__(transport, "_last_stream_session", None)
                 header = None
                 if info.header_type is not None:
                     header = _read_stream_header(transport.reader, info.header_type, ipc_validation, on_log, ext_cfg)
